@@ -185,6 +185,13 @@ func (c *DefaultCompactionCoordinator) compactionWorker() {
 			// Only one compaction at a time
 			c.compactingMu.Lock()
 
+			// Stop may have been called while this tick was waiting for the
+			// lock: a stopped coordinator must not touch the files any more.
+			if !c.running {
+				c.compactingMu.Unlock()
+				return
+			}
+
 			// Run a compaction cycle
 			err := c.runCompactionCycle()
 			if err != nil {
